@@ -75,17 +75,26 @@ func captured(f func()) string {
 
 func envFromJ(envJ A) (func() *types.Env, func() *val.Env) {
 	type b struct {
-		n string
-		v *val.Val
+		n  string
+		v  *val.Val
+		dt *types.Type // declared type, when the environment declares the name under another (equal) type than the value's own
 	}
 	var bs []b
 	for _, x := range envJ {
-		bs = append(bs, b{str(obj(x)["n"]), valFromJ(obj(obj(x)["v"]))})
+		bd := b{n: str(obj(x)["n"]), v: valFromJ(obj(obj(x)["v"]))}
+		if dt, ok := obj(x)["dt"]; ok {
+			bd.dt = typeFromJ(obj(dt))
+		}
+		bs = append(bs, bd)
 	}
 	te := func() *types.Env {
 		e := types.NewEnv()
 		for _, x := range bs {
-			e.Put(x.n, x.v.Type)
+			if x.dt != nil {
+				e.Put(x.n, x.dt)
+			} else {
+				e.Put(x.n, x.v.Type)
+			}
 		}
 		return e
 	}
